@@ -6,4 +6,10 @@ import (
 	"google.golang.org/grpc/internal/zzverif/core"
 )
 
-func TestSimWorker(t *testing.T) { core.WorkerMain(t) }
+func TestSimWorker(t *testing.T) {
+	// whole transports: the interesting windows are one scheduling point wide
+	// among dozens of goroutines (e.g. between a failed stream-quota check and
+	// parking); site delays reach them, uniform picks do not
+	core.PCTPercent, core.PCTSDPercent, core.SDPercent = 15, 10, 20
+	core.WorkerMain(t)
+}
